@@ -167,6 +167,20 @@ CLAIMED = {
         note="Same reference and domain restriction as C17.",
         technique="bounded-exhaustive enumeration of (type, path, depth) against a wire-level reference",
         design_ref="5/C18", engine="B-enum"),
+    "C19": dict(
+        level="exploration",
+        text="Full cross product on real handshakes (loopback TCP) with the tls.Config objects the proxy builds, certificates minted at run "
+             "time (two CAs): server role GetServerTLSConfig x {verification on, skipCAVerification} x client credential {valid chain, "
+             "self-signed, other CA, expired, not yet valid, wrong usage, none} x {normal peer, peer that presents its certificate regardless "
+             "of the CA hint} x {TLS 1.3, 1.2}; client role GetClientTLSConfig x {verification on, skip} x {own certificate or not} x server "
+             "credential {valid, valid chain with wrong name, self-signed, other CA, expired, wrong usage} x TLS version; CA bundle variants "
+             "at configuration time; two configurations with different CAs in one process. Success = handshake plus one application byte in "
+             "each direction, observed from both ends. Wiring: a real ClusterConnection whose tcpServer.tls and tcpClient.tls blocks differ - "
+             "both TCP listeners x peer credentials, and the outgoing client against a TLS fake cluster with valid / foreign certificates.",
+        note="The mux receiver/establisher wrap connections with the same two configs (tls.Server / tls.Client); their accept/dial code is not "
+             "exercised here.",
+        technique="exhaustive cross product of credentials x configurations x roles on real TLS handshakes",
+        design_ref="5/C19", engine="B-enum"),
     "C20": dict(
         level="model_checking",
         text="Bounded-exhaustive histories of stream opens on the real StreamWorkflowReplicationMessages handler with the real "
@@ -235,7 +249,7 @@ def main():
         "engines": [
             {"name": "B-seq", "path": "/verif/harness", "serves_properties": ["C05"],
              "kind_free_text": "explicit-state / bounded-exhaustive enumeration driving the real code in-package"},
-            {"name": "B-enum", "path": "/verif/harness", "serves_properties": ["C07", "C12", "C13", "C14", "C15", "C16", "C17", "C18"],
+            {"name": "B-enum", "path": "/verif/harness", "serves_properties": ["C07", "C12", "C13", "C14", "C15", "C16", "C17", "C18", "C19"],
              "kind_free_text": "bounded-exhaustive enumeration of a finite structurally defined input space against a reference computed independently"},
             {"name": "A-macro", "path": "/verif/harness/proxy/routing_*.go + /verif/rt/pool.go", "serves_properties": ["C01", "C02", "C03", "C04", "C06", "C20"],
              "kind_free_text": "explicit-state BFS whose transitions are executions of the real goroutines in testing/synctest bubbles; "
